@@ -139,7 +139,9 @@ FNext ==
                                                /\ last' = [o |-> o, pol |-> SelPol(allow, Repos), sc |-> NoScope, allow |-> allow, fail |-> k]
        [] kind = "nest" ->
             \* two stacked checkers, every pair of policies over the entries the call consults
-            \E o \in NestOps : \E f1, f2 \in [ConsEntries(o) -> {PolOk} \cup ErrIds] :
+            \* (first call only, one error identity: the pairs of tables are what is swept here)
+            \E o \in NestOps : \E f1, f2 \in [ConsEntries(o) -> {PolOk, CHOOSE e \in ErrIds : TRUE}] :
+               /\ step = 0
                /\ NestApply(o, <<TableOf(f1), TableOf(f2)>>, NoScope)
                /\ last' = [o |-> o, pol |-> <<TableOf(f1), TableOf(f2)>>, sc |-> NoScope, allow |-> {}, fail |-> -1]
        [] kind = "sub" ->
